@@ -3568,6 +3568,8 @@ class DecVar(Vars):
     def evtadapt(self, scens):
 
         if isinstance(scens, Scen):
+            if scens.ambset.model is not self.dro_model:
+                raise ValueError('Models mismatch.')
             # a Scen object carries scenario positions, not labels
             positions = scens.series
             positions = ([positions] if isinstance(positions, Real)
